@@ -200,7 +200,10 @@ from hidc.codegen import CodeGen
 from hidc.errors import CompilerError
 srcs = json.load(open(sys.argv[2]))
 out = {}
-for name, src in srcs.items():
+items = list(srcs.items())
+if len(sys.argv) > 3 and sys.argv[3] == 'reversed':
+    items.reverse()
+for name, src in items:
     for lint in (False, True):
         try:
             env = Environment.empty(unreachable_error=lint)
@@ -224,20 +227,22 @@ def aux_differentials(rep, cases):
         pp = os.path.join(d, 'aux.py')
         open(pp, 'w').write(AUX_PROG)
         outs = {}
-        for seed in ('0', '1', '2', '12345', 'random'):
+        # "any process": other hash seeds, interpreter optimisation levels (asserts stripped), another compilation order
+        for seed, flags, order in (('0', [], ''), ('1', [], ''), ('2', [], ''), ('12345', [], ''), ('random', [], ''), ('0', ['-O'], ''), ('0', ['-OO'], ''), ('0', [], 'reversed')):
             env = dict(os.environ, PYTHONHASHSEED=seed)
-            r = subprocess.run([sys.executable, pp, root, sp], capture_output=True, text=True, env=env)
+            env.pop('PYTHONOPTIMIZE', None)
+            r = subprocess.run([sys.executable] + flags + [pp, root, sp] + ([order] if order else []), capture_output=True, text=True, env=env)
             if r.returncode != 0:
                 rep.harness_errors.append('aux differential subprocess failed: %s' % r.stderr[-300:])
                 return
-            outs[seed] = json.loads(r.stdout)
+            outs[seed + ''.join(' ' + f for f in flags) + (' ' + order if order else '')] = json.loads(r.stdout)
     base = outs['0']
     nd = nl = 0
     for seed, o in outs.items():
         for k, h in o.items():
             nd += 1
             if base[k] != h:
-                rep.violation(dict(what='same source and options produce different assembly under PYTHONHASHSEED=%s than under 0' % seed, case=k,
+                rep.violation(dict(what='same source and options produce different assembly in another process (PYTHONHASHSEED / interpreter flags / compilation order: %s) than under PYTHONHASHSEED=0' % seed, case=k,
                                    replay=dict(type='none', note='auxiliary concrete differential', src=next((c.src for c in cases if c.name == k.split('|')[0]), None))))
     for k, h in base.items():
         if k.endswith('|lint'):
@@ -295,7 +300,7 @@ def main():
     aux_cases = repro_cases() + F.seq_enumerated() + F.time_enumerated('quick')[::3] + F.cf_enumerated()[::5] + F.seq_random(rep.seed, 30 if quick else 300)
     aux_differentials(rep, aux_cases)
     rep.rule = ('(b) family slices swept over every stack size; (c) templates compiled at pairs of word sizes %s with sign-extended inputs under recorded no-overflow conditions; '
-                '(a)/(d) auxiliary: %d programs compiled in 5 processes with different PYTHONHASHSEED and with/without lint' % (pairs, len(aux_cases)))
+                '(a)/(d) auxiliary: %d programs compiled in 8 processes (PYTHONHASHSEED 0/1/2/12345/random, python -O, -OO, reversed compilation order) and with/without lint' % (pairs, len(aux_cases)))
     rep.functions_encoded = ['emitted code under two stack sizes / two word sizes (word-size parametrisation of generator.py and the `w` suffixes of stdlib.py)']
     rep.bounds = dict(word_size_pairs=pairs, stack_sizes='0..56 words', outside='(c): obligations that need products/quotients of two symbolic operands at two widths time out in the solver and are excluded '
                       '(each width is decided separately in C09); (a) and (d) are not solver-decidable')
